@@ -831,10 +831,11 @@ Qed.
 Lemma stmt_visit_errs_unfold : forall ti pi s,
   stmt_visit_errs ti pi s =
   match s with
-  | SService _ _ outs => outs_visit_errs ti pi outs
-  | SCall c => outs_visit_errs ti pi (c_outs c)
+  | SService _ ins outs => lit_visit_errs ti pi ins ++ outs_visit_errs ti pi outs
+  | SCall c => lit_visit_errs ti pi (c_ins c) ++ outs_visit_errs ti pi (c_outs c)
   | SParallel cs =>
-    flat_map (fun ic => outs_visit_errs ti (pi ++ [fst ic]) (c_outs (snd ic))) (index_from 0 cs)
+    flat_map (fun ic => lit_visit_errs ti (pi ++ [fst ic]) (c_ins (snd ic))
+                        ++ outs_visit_errs ti (pi ++ [fst ic]) (c_outs (snd ic))) (index_from 0 cs)
   | SWhile _ body => concat_from (fun i s1 => stmt_visit_errs ti (pi ++ [i]) s1) 0 body
   | SCount _ _ _ body => concat_from (fun i s1 => stmt_visit_errs ti (pi ++ [i]) s1) 0 body
   | SCond _ p f =>
@@ -856,14 +857,17 @@ Proof.
   intros ti s. induction s using stmt_ind'; intros pi Hv; rewrite stmt_visit_errs_unfold;
     cbn [anywhere_exists] in Hv; apply orb_true_iff in Hv.
   - destruct Hv as [Hv|Hv]; [|discriminate]. unfold f_duplicate_output in Hv. cbn in Hv.
-    rewrite orb_false_r in Hv. apply outs_visit_errs_nonempty. exact Hv.
+    rewrite orb_false_r in Hv. intro H. apply app_eq_nil in H. destruct H as [_ H]. revert H.
+    apply outs_visit_errs_nonempty. exact Hv.
   - destruct Hv as [Hv|Hv]; [|discriminate]. unfold f_duplicate_output in Hv. cbn in Hv.
-    rewrite orb_false_r in Hv. apply outs_visit_errs_nonempty. exact Hv.
+    rewrite orb_false_r in Hv. intro H. apply app_eq_nil in H. destruct H as [_ H]. revert H.
+    apply outs_visit_errs_nonempty. exact Hv.
   - destruct Hv as [Hv|Hv]; [|discriminate]. unfold f_duplicate_output in Hv. cbn [stmt_call_outs] in Hv.
     apply existsb_exists in Hv. destruct Hv as (outs & Hin & Hd).
     apply in_map_iff in Hin. destruct Hin as (c & Hc & Hin). subst outs.
     destruct (in_index_from _ _ 0 c Hin) as [j Hj]. intro H.
     pose proof (flat_map_nil_in _ _ _ _ (j, c) H Hj) as Hs. cbn [fst snd] in Hs.
+    apply app_eq_nil in Hs. destruct Hs as [_ Hs].
     exact (outs_visit_errs_nonempty _ _ _ Hd Hs).
   - destruct Hv as [Hv|Hv]; [discriminate|].
     apply existsb_exists in Hv. destruct Hv as (x & Hin & Hx).
@@ -1076,4 +1080,74 @@ Theorem bad_limit_rejected : forall p, has_fault_bad_limit p = true -> validate 
 Proof.
   apply (fault_somewhere_rejected (fun E T => f_bad_limit E T)).
   intros. eapply local_bad_limit; eassumption.
+Qed.
+
+(* ---- F08: an array that directly contains an array, in a struct literal anywhere (the visitor
+   walks every statement) ---- *)
+Definition nested_array_param (x : param) : bool :=
+  match x with
+  | PLit _ j => negb (Nat.eqb (nested_in j) 0)
+  | _ => false
+  end.
+
+Definition f_nested_array (s : stmt) : bool := existsb (existsb nested_array_param) (stmt_params s).
+
+Lemma lit_visit_errs_nonempty : forall ti pi ins,
+  existsb nested_array_param ins = true -> lit_visit_errs ti pi ins <> [].
+Proof.
+  intros ti pi ins Hex H. apply existsb_exists in Hex. destruct Hex as (x & Hin & Hx).
+  unfold lit_visit_errs in H. destruct (in_index_from _ _ 0 x Hin) as [k Hk].
+  pose proof (flat_map_nil_in _ _ _ _ (k, x) H Hk) as Hs. cbn [fst snd] in Hs.
+  destruct x as [| |s j]; try discriminate. cbn [nested_array_param] in Hx.
+  destruct (nested_in j); [discriminate | discriminate].
+Qed.
+
+Lemma nested_array_visit_errs : forall ti s pi,
+  anywhere_exists f_nested_array s = true -> stmt_visit_errs ti pi s <> [].
+Proof.
+  intros ti s. induction s using stmt_ind'; intros pi Hv; rewrite stmt_visit_errs_unfold;
+    cbn [anywhere_exists] in Hv; apply orb_true_iff in Hv.
+  - destruct Hv as [Hv|Hv]; [|discriminate]. unfold f_nested_array in Hv. cbn in Hv.
+    rewrite orb_false_r in Hv. intro H. apply app_eq_nil in H. destruct H as [H _]. revert H.
+    apply lit_visit_errs_nonempty. exact Hv.
+  - destruct Hv as [Hv|Hv]; [|discriminate]. unfold f_nested_array in Hv. cbn in Hv.
+    rewrite orb_false_r in Hv. intro H. apply app_eq_nil in H. destruct H as [H _]. revert H.
+    apply lit_visit_errs_nonempty. exact Hv.
+  - destruct Hv as [Hv|Hv]; [|discriminate]. unfold f_nested_array in Hv. cbn [stmt_params] in Hv.
+    apply existsb_exists in Hv. destruct Hv as (ins & Hin & Hd).
+    apply in_map_iff in Hin. destruct Hin as (c & Hc & Hin). subst ins.
+    destruct (in_index_from _ _ 0 c Hin) as [j Hj]. intro H.
+    pose proof (flat_map_nil_in _ _ _ _ (j, c) H Hj) as Hs. cbn [fst snd] in Hs.
+    apply app_eq_nil in Hs. destruct Hs as [Hs _].
+    exact (lit_visit_errs_nonempty _ _ _ Hd Hs).
+  - destruct Hv as [Hv|Hv]; [discriminate|].
+    apply existsb_exists in Hv. destruct Hv as (x & Hin & Hx).
+    eapply concat_from_nonempty; [exact Hin|]. intro j. rewrite Forall_forall in H. apply H; assumption.
+  - destruct Hv as [Hv|Hv]; [discriminate|].
+    apply existsb_exists in Hv. destruct Hv as (x & Hin & Hx).
+    eapply concat_from_nonempty; [exact Hin|]. intro j. rewrite Forall_forall in H. apply H; assumption.
+  - destruct Hv as [Hv|Hv]; [discriminate|]. apply orb_true_iff in Hv. intro Happ.
+    apply app_eq_nil in Happ. destruct Happ as [Hp Hf]. destruct Hv as [Hv|Hv].
+    + apply existsb_exists in Hv. destruct Hv as (x & Hin & Hx). revert Hp.
+      eapply concat_from_nonempty; [exact Hin|]. intro j. rewrite Forall_forall in H. apply H; assumption.
+    + apply existsb_exists in Hv. destruct Hv as (x & Hin & Hx). revert Hf.
+      eapply concat_from_nonempty; [exact Hin|]. intro j. rewrite Forall_forall in H0. apply H0; assumption.
+Qed.
+
+Definition has_fault_nested_array_literal (p : program) : bool :=
+  existsb (fun t => existsb (anywhere_exists f_nested_array) (t_body t)) (p_tasks p).
+
+Theorem nested_array_literal_rejected : forall p,
+  has_fault_nested_array_literal p = true -> validate p <> Ok [].
+Proof.
+  intros p Hf Hacc. destruct (validate_ok_nil p Hacc) as [Hv _].
+  destruct (visit_errs_nil_parts p Hv) as (_ & _ & H3 & _).
+  unfold has_fault_nested_array_literal in Hf. apply existsb_exists in Hf. destruct Hf as (t & Hin & Hd).
+  apply existsb_exists in Hd. destruct Hd as (s & Hs & Hd).
+  destruct (in_index_from _ _ 0 t Hin) as [j Hj].
+  pose proof (flat_map_nil_in _ _ _ _ (j, t) H3 Hj) as Ht. cbn [fst snd] in Ht.
+  unfold task_visit_errs in Ht. apply app_eq_nil in Ht. destruct Ht as [_ Ht].
+  apply app_eq_nil in Ht. destruct Ht as [_ Ht]. rewrite body_visit_errs_concat in Ht.
+  revert Ht. eapply concat_from_nonempty; [exact Hs|]. intro k.
+  apply nested_array_visit_errs. exact Hd.
 Qed.
